@@ -4,7 +4,9 @@ CONSTANTS
   Client <- Client3
   MaxNonce = 4
   MaxFail = 3
-  Ops = {"Accept", "FirstLogin", "Login", "Close", "Kick", "Heartbeat", "Tick", "Unregister"}
+  MaxCtl = 0
+  Faults = {}
+  Ops = {"Accept", "FirstLogin", "Login", "Knock", "Close", "Kick", "Heartbeat", "Tick", "Unregister"}
   Types = {"control", "tunnel"}
   PreAccept = FALSE
   Fixes = @@FIXES@@
